@@ -33,10 +33,19 @@ def fold(node, env):
         return table[op]()
     if isinstance(node, ast.UnaryOp) and isinstance(node.op, ast.USub):
         return -fold(node.operand, env)
-    if isinstance(node, ast.Compare) and len(node.ops) == 1:
-        a, b = fold(node.left, env), fold(node.comparators[0], env)
-        op = type(node.ops[0])
-        return {ast.Lt: a < b, ast.LtE: a <= b, ast.Gt: a > b, ast.GtE: a >= b, ast.Eq: a == b, ast.NotEq: a != b}[op]
+    if isinstance(node, ast.Compare):
+        left = fold(node.left, env)
+        for opn, cn in zip(node.ops, node.comparators):
+            b = fold(cn, env)
+            a = left
+            op = type(opn)
+            tbl = {ast.Lt: a < b, ast.LtE: a <= b, ast.Gt: a > b, ast.GtE: a >= b, ast.Eq: a == b, ast.NotEq: a != b}
+            if op not in tbl:
+                raise _NoFold(ast.unparse(node))
+            if not tbl[op]:
+                return False
+            left = b
+        return True
     if isinstance(node, ast.BoolOp):
         vals = [fold(v, env) for v in node.values]
         return all(vals) if isinstance(node.op, ast.And) else any(vals)
